@@ -56,7 +56,10 @@ package client
 //@     | rm.handlers[id] != nil && isclass(rm.handlers[id], "client.handlers") && tag(rm.handlers[id]) == id && !closed(rm.handlers[id])
 //@   loop 0 invariant[C09.close_all] forall k Int :: visited(k) ==> !(k in rm.handlers)
 //@   loop 0 invariant[C09.close_all] rm.rErr == err && err != nil
+//@   loop 0 invariant[C09.all_waiters_woken] forall k Int :: atlock(k in rm.handlers) ==>
+//@     | (k in rm.handlers && rm.handlers[k] == atlock(rm.handlers[k])) || closed(atlock(rm.handlers[k]))
 //@   ensures[C09.error_recorded] err != nil ==> rm.rErr == err && len(rm.handlers) == 0
+//@   ensures[C09.all_waiters_woken] err != nil ==> (forall k Int :: atlock(k in rm.handlers) ==> closed(atlock(rm.handlers[k])))
 
 //@ func client.(*RpcMultiplexer).readErrorIfDone
 //@   ensures[C09.reads_error] true
@@ -105,3 +108,65 @@ package client
 //@   nopanic[C13.nopanic]
 //@   atcall[C06.stream_write_unchanged C02.write_unchanged] (types.RpcReadWriter).Write : arg2 == rpc && arg1 == ctx
 //@   ensures[C02.one_write C06.one_write] ncalls("(types.RpcReadWriter).Write") == old(ncalls("(types.RpcReadWriter).Write")) + 1
+
+// ---------------------------------------------------------------------------------
+// clientStream
+
+//@ objinv[C13.objinv C02.objinv C07.objinv C14.objinv C06.objinv C20.objinv C03.objinv] client.clientStream : self.ctx != nil && self.rw != nil && self.rCh != nil && self.teardown != nil && self.codec != nil
+//@ objinv[C13.objinv C02.objinv C07.objinv C14.objinv C06.objinv C20.objinv C03.objinv] client.clientStream : forall j Int :: 0 <= j && j < len(self.statsHandlers) ==> self.statsHandlers[j] != nil
+
+//@ chanclass client.rCh msg: m != nil
+//@ objinv[C13.objinv C02.objinv] client.clientStream : isclass(self.rCh, "client.rCh")
+
+//@ lock client.clientStream.protected.Mutex guards protected.done, protected.headerErr, protected.eErr, protected.rErr, protected.trailer
+//@   inv[C13.terminal_wellformed C02.terminal_wellformed C09.terminal_wellformed] self.protected.done ==> self.protected.rErr != nil
+//@   inv[C13.closed_means_done] closed(self.rCh) ==> self.protected.done
+
+//@ func client.(*clientStream).readErrorIfDone
+//@   nopanic[C13.nopanic]
+//@   ensures[C13.terminal_wellformed C02.terminal_wellformed] result.0 ==> result.1 != nil
+//@   ensures[C13.closed_means_done] old(closed(cs.rCh)) ==> result.0
+//@   ensures[C13.terminal_wellformed] !result.0 ==> result.1 == nil
+
+//@ func client.(*clientStream).Header
+//@   nopanic[C13.nopanic]
+
+//@ func client.(*clientStream).Trailer
+//@   nopanic[C13.nopanic]
+
+//@ func client.(*clientStream).CloseSend
+//@   nopanic[C13.nopanic]
+//@   atcall[C06.half_close_shape C02.half_close_shape] (types.RpcReadWriter).Write :
+//@     | arg2 != nil && arg2.Id == cs.id && arg2.Header != nil && arg2.Header.Method == cs.method && arg2.Header.Source == cs.sourceAddress && arg2.Header.Destination == cs.destAddress
+//@     | && arg2.Status != nil && arg2.Status.Code == 0 && arg2.Trailer != nil && arg2.Body == nil && arg2.Reset_ == nil && arg1 == cs.ctx
+//@   ensures[C06.half_close_once] ncalls("(types.RpcReadWriter).Write") == old(ncalls("(types.RpcReadWriter).Write")) + 1
+
+//@ func client.(*clientStream).SendMsg
+//@   nopanic[C13.nopanic]
+//@   atcall[C06.message_shape C02.message_shape C07.send_uses_stream_ctx] (types.RpcReadWriter).Write :
+//@     | arg2 != nil && arg2.Id == cs.id && arg2.Header != nil && arg2.Header.Method == cs.method && arg2.Header.Source == cs.sourceAddress && arg2.Header.Destination == cs.destAddress
+//@     | && arg2.Body != nil && arg2.Body.Data == bsContent(body) && arg2.Status == nil && arg2.Trailer == nil && arg2.Reset_ == nil && arg1 == cs.ctx
+//@   atcall[C02.message_bytes] (google.golang.org/grpc/encoding.CodecV2).Marshal : arg1 == m
+//@   ensures[C06.message_once C02.message_once] ncalls("(types.RpcReadWriter).Write") <= old(ncalls("(types.RpcReadWriter).Write")) + 1
+//@   ensures[C02.send_ok_means_written C07.send_fails_when_done] result == nil ==> ncalls("(types.RpcReadWriter).Write") == old(ncalls("(types.RpcReadWriter).Write")) + 1
+
+//@ func client.(*clientStream).RecvMsg
+//@   nopanic[C13.nopanic]
+//@   atcall[C02.received_body_decoded] (google.golang.org/grpc/encoding.CodecV2).Unmarshal : bound("body") && body != nil && bufContent(arg1[0]) == body.Data && arg2 == m
+//@   ensures[C13.success_only_with_data C02.success_only_with_data] result == nil ==> bound("ok") && ok && ncalls("(google.golang.org/grpc/encoding.CodecV2).Unmarshal") == old(ncalls("(google.golang.org/grpc/encoding.CodecV2).Unmarshal")) + 1
+//@   ensures[C09.closed_means_error] bound("ok") && !ok ==> result != nil
+
+//@ func client.NewStream
+//@   nopanic[C13.nopanic]
+//@   requires ctx != nil && rw != nil && teardown != nil
+//@   requires forall j Int :: 0 <= j && j < len(statsHandlers) ==> statsHandlers[j] != nil
+//@   makechan 0 tag 0 class client.rCh
+//@   ensures[C14.one_reader C02.one_reader] ncalls("go:(*github.com/avos-io/goat/internal/client.clientStream).readLoop") == old(ncalls("go:(*github.com/avos-io/goat/internal/client.clientStream).readLoop")) + 1
+
+//@ func client.(*clientStream).readLoop
+//@   nopanic[C13.nopanic]
+//@   owns cs.rCh
+//@   requires !closed(cs.rCh)
+//@   requires[C13.latch_armed] cs.header == nil && wg(cs.ready) == 1
+//@   loop 0 invariant[C13.latch_armed] cs.header == nil ==> wg(cs.ready) == 1
+//@   loop 0 invariant[C13.latch_armed] !closed(cs.rCh)
